@@ -964,19 +964,42 @@ def build_findings(ctx):
 
 
 def replay(ctx, binp):
+    """re-run the recorded input(s) through the harness and re-evaluate the recorded clause"""
     rec = json.load(open(ctx.replay))
-    det = rec.get("detail", {})
+    det, sig = rec.get("detail", {}), rec.get("signature", {})
     jobs = [det[k] for k in ("job", "job_ab", "job_ba", "job_x", "job_y") if isinstance(det.get(k), dict)] + \
            [j for j in det.get("jobs", []) if isinstance(j, dict)]
     if not jobs and "divs" in det:
         ds = det["divs"] if isinstance(det["divs"], list) else [det["divs"]]
         jobs = [{"id": "acc", "op": "accept", "from": min(ds), "to": max(ds), "limit_ms": 30000}]
+    if not jobs and sig.get("kind") == "simpson_1d_rejects":
+        jobs = [{"id": "acc", "op": "accept", "from": sig["divs"], "to": sig["divs"], "limit_ms": 30000}]
+    if not jobs:
+        ctx.log("REPLAY: this record names a proof obligation / correspondence case, not an input; re-run ./check C12")
+        return 0
     obs = run_jobs(ctx, binp, jobs, nproc=1)
     for j in jobs:
         ctx.log("REPLAY job", json.dumps(j))
         ctx.log("REPLAY observation", json.dumps(obs.get(j["id"])))
+    kind = sig.get("kind")
+    again = None
+    o = obs.get(jobs[0]["id"], {})
+    if kind in ("panic", "crash"):
+        again = not o.get("ok", False)
+    elif kind == "time":
+        again = o.get("kind") == "timeout" or o.get("evals", 0) > EVAL_BUDGET[sig.get("dim", 1)]
+    elif kind == "accuracy" and o.get("ok") and "expected" in det:
+        v = val_of(o)
+        again = abs(v - complex(*det["expected"])) > det.get("allowed", 0.0)
+    elif kind == "reverse" and len(jobs) == 2:
+        o2 = obs.get(jobs[1]["id"], {})
+        if o.get("ok") and o2.get("ok"):
+            again = abs(val_of(o) + val_of(o2)) > det.get("sum_should_be_zero_within", 0.0)
+    elif kind in ("simpson_1d_rejects", "simpson2d_rejects_divs_accepted_in_1d") and o.get("kind") == "accept":
+        again = any((not r["ok1"]) if kind == "simpson_1d_rejects" else (r["ok1"] and not r["ok2"]) for r in o["rows"])
     ctx.log("REPLAY recorded violation:", rec.get("what"))
-    return 0
+    ctx.log("REPLAY verdict:", {True: "reproduces on this tree", False: "does NOT reproduce on this tree", None: "see observations above"}[again])
+    return 1 if again else 0
 
 
 def run(ctx):
